@@ -87,3 +87,21 @@ Definition src_documented (s : src) : bool :=
   match s with SrcOk f => headers_documented None (sfile_body f) | SrcParseErr _ _ => true end.
 (* the second compilation sees the source as it was, or as a successful Add left it *)
 Definition readd_variant (s s' : src) : Prop := s' = s \/ s' = rewritten_src s.
+
+(* the trees in which a file can be after Add returned an error on it *)
+Inductive interrupted_variant (f : sfile) : sfile -> Prop :=
+(* the nodes up to and including a node that is not a SoyDoc (the template whose
+   name turned out to be defined already) are rewritten, the others untouched *)
+| IV_rewritten_prefix j ns ae :
+    find_namespace (firstn (S j) (sfile_body f)) = inr (ns, ae) ->
+    (S j <= length (sfile_body f))%nat ->
+    (forall m, nth_error (sfile_body f) j = Some m -> is_soydoc m = false) ->
+    interrupted_variant f (interrupted_file (S j) (fun l => l) f)
+(* the nodes in front of the SoyDoc of the template rejected for having both
+   kinds of params are rewritten; that SoyDoc has the header params appended
+   (once per failed Add: [extra] is any list); the rest is untouched *)
+| IV_params_appended k extra p ps t rest name ns ae :
+    find_namespace (firstn k (sfile_body f)) = inr (ns, ae) ->
+    skipn k (sfile_body f) = NSoyDoc p ps :: t :: rest ->
+    template_local (sfile_name f) ns ae (Some (NSoyDoc p ps)) t = inl (AEBothParamKinds name) ->
+    interrupted_variant f (interrupted_file k (params_appended extra) f).
